@@ -25,7 +25,7 @@ RULE = "run = seeded prefix of 1..40 library calls with injected faults, each pa
 REAL = ["cssutils/* (parse, prodparser, tokenize2, errorhandler, serialize, profiles, script, css/*, stylesheets/*)", "encutils", "codecs machinery"]
 STUBS = ["SimNet fetcher / fake urllib.request.urlopen", "scratch files in a per-run temp dir", "SimLog log sink"]
 ASSUMPTIONS = ["single-threaded use (README: cssutils is thread unsafe)", "log message texts are not compared, only levels and counts"]
-PROBES = ["savedTokens_nonempty_at_op_end", "pushback_nonempty_at_op_end", "exception_through_nested_import", "parser_built_under_other_mode", "parse_raised", "battery_after_fault", "live_fetcher_reused_after_documents_changed", "member_of_parsed_container_edited"]
+PROBES = ["savedTokens_nonempty_at_op_end", "pushback_nonempty_at_op_end", "exception_through_nested_import", "parser_built_under_other_mode", "parse_raised", "battery_after_fault", "live_fetcher_reused_after_documents_changed", "member_of_parsed_container_edited", "object_reused_after_rejected_text"]
 
 UNDECODABLE = ["fffe61", "ff", "c328", "61ff62", "efbbbfff", "40636861727365742022617363696922 3bff".replace(" ", "")]
 
@@ -54,7 +54,7 @@ def config(rs, run, tier):
     }
 
 
-OPKINDS = ["parse_string", "parse_bytes", "parse_style", "parse_file", "parse_url", "parse_import", "new_parser", "standalone", "dom_edit", "prefs", "set_serializer", "combine", "profile_pair", "flip_mode", "battery", "reuse", "parse_live", "parse_live"]
+OPKINDS = ["parse_string", "parse_bytes", "parse_style", "parse_file", "parse_url", "parse_import", "new_parser", "standalone", "dom_edit", "prefs", "set_serializer", "combine", "profile_pair", "flip_mode", "battery", "reuse", "parse_live", "parse_live", "reuse_object", "reuse_object"]
 
 
 class World:
@@ -352,6 +352,36 @@ class World:
             self.stats[f"op:standalone:{op['cls']}:{'ok' if kk == 'ok' else lib.ename(v)}"] += 1
             self._whitebox()
             return "ok" if kk == "ok" else lib.ename(v)
+        if k == "reuse_object":
+            # oracle 6: an object given t1 (possibly rejected) and then t2 equals a new object given t2
+            spec = {
+                "Property.value": (lambda: cu.css.Property("left", "1px"), "value", lambda o: (o.cssText, o.wellformed, o.value)),
+                "Property.cssText": (lambda: cu.css.Property("left", "1px"), "cssText", lambda o: (o.cssText, o.wellformed, o.name, o.value, o.priority)),
+                "PropertyValue.cssText": (lambda: cu.css.PropertyValue("1px"), "cssText", lambda o: (o.cssText, o.wellformed, o.length)),
+                "MediaQuery.mediaText": (lambda: cu.stylesheets.MediaQuery("print"), "mediaText", lambda o: (o.mediaText, o.wellformed, o.mediaType)),
+                "MediaList.mediaText": (lambda: cu.stylesheets.MediaList("print, tv"), "mediaText", lambda o: (o.mediaText, o.wellformed, o.length)),
+                "Selector.selectorText": (lambda: cu.css.Selector("a"), "selectorText", lambda o: (o.selectorText, o.wellformed, tuple(o.specificity))),
+                "SelectorList.selectorText": (lambda: cu.css.SelectorList("a, b"), "selectorText", lambda o: (o.selectorText, o.wellformed, o.length)),
+                "CSSStyleDeclaration.cssText": (lambda: cu.css.CSSStyleDeclaration("left: 1px"), "cssText", lambda o: (o.cssText, o.length)),
+                "CSSUnknownRule.cssText": (lambda: cu.css.CSSUnknownRule("@x y;"), "cssText", lambda o: (o.cssText, o.wellformed, o.atkeyword)),
+                "CSSStyleRule.cssText": (lambda: cu.css.CSSStyleRule(selectorText="a", style="left: 1px"), "cssText", lambda o: (o.cssText, o.wellformed)),
+            }[op["what"]]
+            make, attr, obs = spec
+            k0, used = lib.call(make)
+            k1, fresh = lib.call(make)
+            if k0 != "ok" or k1 != "ok":
+                return "noctor"
+            lib.call(setattr, used, attr, op["t1"])
+            ka, va = lib.call(setattr, used, attr, op["t2"])
+            kb, vb = lib.call(setattr, fresh, attr, op["t2"])
+            self.stats["oracle"] += 1
+            self.stats["probe:object_reused_after_rejected_text"] += 1
+            ra = (ka, lib.call(obs, used)[1] if ka == "ok" else lib.ename(va))
+            rb = (kb, lib.call(obs, fresh)[1] if kb == "ok" else lib.ename(vb))
+            if ra != rb:
+                raise Viol("object_reuse", f"reuse:{op['what']}", f"{op['what']}: an object first given {op['t1']!r} and then {op['t2']!r} reads {ra!r}; one that was only given {op['t2']!r} reads {rb!r} (error mode raise={cu.log.raiseExceptions})")
+            self._whitebox()
+            return "ok"
         if k == "dom_edit":
             s = self.sheet
             if s is None:
@@ -549,6 +579,22 @@ def gen_op(r, w, i):
         if cls in ("MediaQuery", "Selector", "PropertyValue", "Property") and r.random() < 0.4:
             base["of_list"] = r.choice([1, 2])
         return base
+    if k == "reuse_object":
+        what = r.choice(["Property.value", "Property.value", "Property.cssText", "PropertyValue.cssText", "MediaQuery.mediaText", "MediaQuery.mediaText", "MediaList.mediaText", "Selector.selectorText", "SelectorList.selectorText", "CSSStyleDeclaration.cssText", "CSSUnknownRule.cssText", "CSSStyleRule.cssText"])
+        pools = {
+            "Property.value": (["$", "", "1;2", "(", "red }"], ["2px", "red", "1px 2px"]),
+            "Property.cssText": (["left", ": x", "top: (", "1a: b"], ["top: 2px", "color: red !important"]),
+            "PropertyValue.cssText": (["$", "(", "1px;"], ["2px", "a b"]),
+            "MediaQuery.mediaText": (["3d", "print and", "screen and (x", "tv, print"], ["not screen and (color)", "tv", "(min-width: 1px)", "only print"]),
+            "MediaList.mediaText": (["3d", "print and", "/*x*/"], ["screen", "tv, print", "all"]),
+            "Selector.selectorText": (["a[", "1a", "a >", ":not("], ["b > c", "a.k#i"]),
+            "SelectorList.selectorText": (["a,, b", "a[", ","], ["c, d", "e"]),
+            "CSSStyleDeclaration.cssText": (["color: (", "a b", "$x: 1"], ["top: 0", "color: red; left: 1px"]),
+            "CSSUnknownRule.cssText": (["@y { a }", "@x {", "a { }", "@y z;"], ["@x z;", "@x { a: b }"]),
+            "CSSStyleRule.cssText": (["b { left: (", "b,, c { }", "@media print { }", "b {"], ["b { top: 0 }", "c, d { left: 2px }"]),
+        }[what]
+        t1 = r.choice(pools[0]) if r.random() < 0.7 else r.choice(pools[1])
+        return {"op": k, "what": what, "t1": t1, "t2": r.choice(pools[1])}
     if k == "parse_live":
         docs = {"http://h/a.css": {"text": r.choice(["z { left: 1px }", "z { left: 2px }", "y { top: 0 } @media print { z { left: 3px } }", '@import "b.css"; z { left: 4px }', "", "z {"]), "enc": None, "http": None, "fault": r.choice([None, None, None, "NOT_FOUND"])}, "http://h/b.css": {"text": r.choice(["w { top: 1px }", "w { top: 2px }"]), "enc": None, "http": None, "fault": None}}
         return {"op": k, "via": r.choice(["p0", "p1"]), "net": docs, "text": r.choice(['@import "a.css";', '@import "a.css"; @import "b.css";', '@import "a.css" print; a { top: 0 }'])}
@@ -566,7 +612,7 @@ def gen_op(r, w, i):
         return base
     if k == "prefs":
         assign = {}
-        for n, vals in (("indent", ["", "  "]), ("keepComments", [False]), ("omitLastSemicolon", [False]), ("lineSeparator", [""]), ("keepAllProperties", [False]), ("resolveVariables", [False]), ("indentClosingBrace", [False]), ("keepEmptyRules", [True])):
+        for n, vals in (("indent", ["", "  "]), ("keepComments", [False]), ("omitLastSemicolon", [False]), ("lineSeparator", [""]), ("keepAllProperties", [False]), ("resolveVariables", [False]), ("indentClosingBrace", [False]), ("keepEmptyRules", [True]), ("indentSpecificities", [True]), ("lineNumbers", [True]), ("validOnly", [True]), ("defaultPropertyName", [False]), ("importHrefFormat", ["string", "uri"])):
             if r.random() < 0.3:
                 assign[n] = r.choice(vals)
         base.update(assign=assign, minified=r.random() < 0.3, text=G.sheet(r))
